@@ -707,6 +707,9 @@ type Stats struct {
 	Failures   []FoundFailure
 	Complete   bool // every schedule within the bound was executed
 	Infra      string
+	// StallReproduced: the stalled schedule stalled again in two replays (see Explore)
+	StallReproduced bool
+	StallSchedule   []int
 }
 
 // FoundFailure is a violating execution.
@@ -761,7 +764,25 @@ func Explore(cfg Config, body func(x *Exec)) Stats {
 			st.MaxDepth = len(x.decisions)
 		}
 		if x.stalled != "" {
+			// classify before believing: replay exactly this schedule twice more. A stall that comes back every time
+			// is a hang of the code under that schedule (a wait the scheduler cannot see, or an unbounded loop); one
+			// that does not is the machine (load) or nondeterminism outside the scheduler: the exploration stops
+			// incomplete, it is never a verdict.
+			sched := make([]int, len(x.decisions))
+			sigs := make([]string, len(x.decisions))
+			for i, d := range x.decisions {
+				sched[i] = d.chosen
+				sigs[i] = d.sig
+			}
+			again := 0
+			for k := 0; k < 2; k++ {
+				if y := runOne(cfg, sched, sigs, body); y.stalled != "" {
+					again++
+				}
+			}
 			st.Infra = "stall: a released goroutine neither parked nor finished, or the step horizon was exceeded:\n" + x.stalled
+			st.StallReproduced = again == 2
+			st.StallSchedule = sched
 			st.Complete = false
 			return st
 		}
